@@ -632,3 +632,15 @@ package core
 //@   requires svalid(s)
 //@   loop 1 decreases mark
 //@   loop 2 decreases len(*s.line) - cpos
+
+// C01: the word under a position (used by the keyword switchers).  Only the range of the result is stated.
+//@ func (*Line).SelectWord
+//@   props C01
+//@   terminates
+//@   requires l != nil
+//@   pure
+//@   ensures [in-range] 0 <= result0 && result0 <= len(*l) && 0 <= result1 && result1 <= max(len(*l) - 1, 0)
+//@   loop 1 invariant -1 <= bpos && bpos <= pos && 0 <= pos && pos < len(*l)
+//@   loop 1 decreases bpos + 1
+//@   loop 2 invariant 0 <= pos && pos <= epos && epos <= len(*l) && -1 <= bpos && bpos <= pos
+//@   loop 2 decreases len(*l) - epos
